@@ -76,4 +76,38 @@ def invertSafe (cfg : Config) (m : MatcherI) (inp : Bytes) : Bool :=
   let ms := mlMatches m inp
   (ms.zip ms.tail).all fun p => decide ((locate inp cfg.lineTerm.asByte p.1).e ≤ p.2.s)
 
+/-- the line ranges of the matches the *inverted* scan finds: after a match it resumes at the end of the match's
+last line (`advance(&line)`), not at the end of the match -/
+def invRangesFrom (findAt : Nat → Option Span) (loc : Span → Span) (len : Nat) : Nat → Nat → List Span
+  | 0, _ => []
+  | fuel + 1, pos =>
+    if pos ≥ len then []
+    else
+      match findAt pos with
+      | none => []
+      | some mat => loc mat :: invRangesFrom findAt loc len fuel (nextPos len (loc mat))
+
+def invRanges (cfg : Config) (m : MatcherI) (inp : Bytes) : List Span :=
+  invRangesFrom (m.findAt inp) (locate inp cfg.lineTerm.asByte) inp.length (inp.length + 1) 0
+
+/-- what the inverted multi-line search delivers: the grep model for the lines *not* inside the line range of a
+match the inverted scan finds -/
+def mlSpecInv (cfg : Config) (m : MatcherI) (inp : Bytes) : List Event :=
+  grepSpecLines { cfg with stopOnNonmatch := false }
+    (coverBits (invRanges cfg m inp) true 0 (splitLines cfg.lineTerm.asByte inp))
+
+/-- the inverted scan and the specification select the same lines -/
+def invCoverSame (cfg : Config) (m : MatcherI) (inp : Bytes) : Bool :=
+  coverBits (invRanges cfg m inp) true 0 (splitLines cfg.lineTerm.asByte inp)
+    == coverBits (mlBlocks cfg m inp) true 0 (splitLines cfg.lineTerm.asByte inp)
+
+/-- The matcher's answers on this input are spans inside the input that start at or after the search position
+(decidable form of the contract under which `C13_context` is proved; every table the harness builds from the
+regex engine's answers is checked against it). -/
+def spanSaneB (m : MatcherI) (inp : Bytes) : Bool :=
+  (List.range (inp.length + 1)).all fun pos =>
+    match m.findAt inp pos with
+    | none => true
+    | some mat => decide (pos ≤ mat.s) && decide (mat.s ≤ mat.e) && decide (mat.e ≤ inp.length)
+
 end RgVerif.MLSpec
